@@ -102,6 +102,7 @@ func (s *Store) Client() *clientv3.Client {
 	c.KV = clientv3.NewKVFromKVClient(&kvClient{s}, c)
 	c.Lease = &leaseClient{s}
 	c.Watcher = &watchClient{s: s}
+	c.Cluster = &clusterClient{s}
 	return c
 }
 
@@ -679,6 +680,33 @@ func (c *kvClient) Compact(ctx context.Context, in *pb.CompactionRequest, _ ...g
 	s.mu.Lock()
 	defer s.mu.Unlock()
 	return &pb.CompactionResponse{Header: s.header()}, nil
+}
+
+// ---- cluster membership ----
+
+// clusterClient answers the membership API: pd's background metrics job lists the etcd members
+// every 10 s of real time. The fake has no members to report (an empty list: nothing to probe).
+type clusterClient struct{ s *Store }
+
+func (c *clusterClient) MemberList(ctx context.Context) (*clientv3.MemberListResponse, error) {
+	c.s.mu.Lock()
+	defer c.s.mu.Unlock()
+	return &clientv3.MemberListResponse{Header: c.s.header()}, nil
+}
+func (c *clusterClient) MemberAdd(ctx context.Context, peerAddrs []string) (*clientv3.MemberAddResponse, error) {
+	return nil, errors.New("fakeetcd: MemberAdd not implemented")
+}
+func (c *clusterClient) MemberAddAsLearner(ctx context.Context, peerAddrs []string) (*clientv3.MemberAddResponse, error) {
+	return nil, errors.New("fakeetcd: MemberAddAsLearner not implemented")
+}
+func (c *clusterClient) MemberRemove(ctx context.Context, id uint64) (*clientv3.MemberRemoveResponse, error) {
+	return nil, errors.New("fakeetcd: MemberRemove not implemented")
+}
+func (c *clusterClient) MemberUpdate(ctx context.Context, id uint64, peerAddrs []string) (*clientv3.MemberUpdateResponse, error) {
+	return nil, errors.New("fakeetcd: MemberUpdate not implemented")
+}
+func (c *clusterClient) MemberPromote(ctx context.Context, id uint64) (*clientv3.MemberPromoteResponse, error) {
+	return nil, errors.New("fakeetcd: MemberPromote not implemented")
 }
 
 // ---- leases ----
